@@ -433,7 +433,7 @@ func (u *LUnit) Spec(it ast.Type, t gschema.Term, v any, depth int) (spec any, u
 		if rt.K != "disj" || len(rt.Sub) != len(it.AsDisjunction().Branches) {
 			return nil, false, ErrInexpressible{"union shape differs from the source"}
 		}
-		i := u.pickBranch(rt, v)
+		i := u.PickBranch(rt, v)
 		if i < 0 {
 			return nil, false, ErrInexpressible{"no union branch carries " + ValueClass(v)}
 		}
@@ -463,7 +463,7 @@ func (u *LUnit) Spec(it ast.Type, t gschema.Term, v any, depth int) (spec any, u
 	return nil, false, ErrInexpressible{"builder-typed parameter of kind " + string(it.Kind)}
 }
 
-func (u *LUnit) pickBranch(disj gschema.Term, v any) int {
+func (u *LUnit) PickBranch(disj gschema.Term, v any) int {
 	for i, b := range disj.Sub {
 		rb := u.Resolve(b)
 		switch x := v.(type) {
@@ -532,7 +532,7 @@ func (u *LUnit) CallsFor(b ast.Builder, v any, depth int) ([]any, error) {
 	}
 	calls := []any{}
 	if bt.K == "disj" {
-		i := u.pickBranch(bt, v)
+		i := u.PickBranch(bt, v)
 		obj, ok := u.object(b.For.Name)
 		if i < 0 || !ok || !obj.Type.IsStruct() || len(obj.Type.AsStruct().Fields) != len(bt.Sub) {
 			return nil, ErrInexpressible{"no branch of " + b.Name + " carries " + ValueClass(v)}
